@@ -132,9 +132,10 @@ PROPS = {
     "C01": {
         "level": "proof",
         "lean_modules": ["CrabProofs.Props.C01Engine", "CrabProofs.Props.C01Prog"],
-        "components": [FIX_COMPONENT] + prog_components("[C01]", 500, 6000, ids=(1, 7, 8, 9, 26)),  # 14 (flat boolean) joins when its two defects are repaired
-        "rule": PROPS_C06_RULE if False else "see C06 (same iterator harness): random CFGs x relations x start blocks x assumption maps x delay/descending x widening/narrowing modes; every table entry of the real iterator must contain the Kleene least solution",
-        "assumptions": ["engine level only so far: the statement->operation mapping of intra_abs_transformer and the shipped domains enter through the Sem contract (domain operations are exercised by the C03 history harness)"],
+        "components": [FIX_COMPONENT] + prog_components("[C01]", 500, 6000),
+        "rule": "(1) iterator harness as C06: random CFGs x relations x start blocks x assumption maps x delay/descending x widening/narrowing modes; every table entry of the real iterator must contain the Kleene least solution. (2) " + PROG_RULE,
+        "assumptions": ["the statement->operation mapping of intra_abs_transformer, liveness pruning and thresholds are covered by the program harness (tested), the engine and the interval domain by theorems; the Sem contract of the other shipped domains is tested (C03 history harness + program harness)",
+                        ],
         "trusted_base": COMMON_TB + ["model: CrabModel/Fix/Interleaved.lean; semantics: CrabModel/Fix/Semantics.lean"],
     },
     "C05": {
@@ -217,12 +218,15 @@ PROPS = {
     },
     "C18": {
         "level": "proof",
-        "lean_modules": ["CrabProofs.Props.C18"],
+        "lean_modules": ["CrabProofs.Props.C18", "CrabProofs.Props.C18Crawler"],
         "components": [{"harness": "h_xform", "quick": 12000, "thorough": 400000, "shards": 4,
                         "nontrivial": lambda l: l.startswith("(live."),
-                        "accept": lambda v, req, msg: "[C18]" in msg or (v in ("DRIFT", "BAD") and req.startswith("(live."))}],
-        "rule": "same program generator; the real liveness_analysis results (live at block end, dead_exit) are compared with the model of the coded equations run on the implementation's own block order, with the specification liveness (implementation dead must be spec dead), and by paired executions differing only in a reported-dead variable; the assertion crawler is not driven",
-        "assumptions": ["block order of run_bwd_fixpo is an input of the model (read from the implementation)"],
+                        "accept": lambda v, req, msg: "[C18]" in msg or (v in ("DRIFT", "BAD") and req.startswith("(live."))},
+                       {"harness": "h_crawl", "quick": 6000, "thorough": 200000, "shards": 8,
+                        "nontrivial": lambda l: l.startswith("(crawl.") and "(assert" in l,
+                        "accept": lambda v, req, msg: "[C18]" in msg or (v in ("DRIFT", "BAD") and req.startswith("(crawl."))}],
+        "rule": "same program generator; the real liveness_analysis results (live at block end, dead_exit) are compared with the model of the coded equations run on the implementation's own block order, with the specification liveness (implementation dead must be spec dead), and by paired executions differing only in a reported-dead variable. Assertion crawler: the real assertion_crawler (data-only and data+control, block-entry and per-statement answers) on generated programs (if/else with complementary assumes, loops, early returns, error sinks, assignment chains, killing redefinitions, havoc, select); for every (point, assertion, variable not reported) paired executions differing only in that variable are compared; answers are also compared with the Lean model and must pass the proved-sufficient decidable data-flow condition isDataSol",
+        "assumptions": ["block order of run_bwd_fixpo and the control-dependence graph are inputs of the models (read from the implementation; the cdg is compared with the Ferrante-Ottenstein-Warren definition when every block reaches the exit)", "control dependence is judged only at deterministic branches (complementary assumes)"],
         "trusted_base": COMMON_TB + ["models: CrabModel/Transform/{TIR,Liveness}.lean"],
     },
     "C02": {
